@@ -171,7 +171,7 @@ class Report:
         self.inconclusive = []
         self.extra = {}
         self.viol_kinds = Counter()
-        if os.path.isdir(REPLAYS):
+        if os.path.isdir(REPLAYS) and not os.environ.get("VERIF_REPLAY_MODE"):
             for fn in os.listdir(REPLAYS):
                 if fn.startswith(prop + "-"):
                     try:
